@@ -71,6 +71,8 @@ type submitOp struct {
 	Why      string       `json:"why,omitempty"` // what the generator intended with this request
 	// FaultIssuer: the first issuer upload this request triggers fails in the backend (not applied)
 	FaultIssuer bool `json:"fault_issuer,omitempty"`
+	// SameLeafAs (sub): the leaf certificate is the one of this earlier request, submitted through another valid chain
+	SameLeafAs string `json:"same_leaf_as,omitempty"`
 	// FaultRoots (setroots): persisting the bundle (_roots.pem) fails in the backend (not applied)
 	FaultRoots bool `json:"fault_roots,omitempty"`
 }
@@ -175,6 +177,7 @@ type submitRunner struct {
 	// leaves the oracle accounts for: index -> description
 	accounted map[int64]string
 	bySub     map[string]int64 // request key -> index it was given
+	byName    map[string]string // request name -> request key (alternate chains of one leaf share a key)
 	i3bad     []string
 	traced    bool
 }
@@ -318,6 +321,7 @@ func (r *submitRunner) run() (err error) {
 	r.certs = map[string]*submitCertRec{}
 	r.accounted = map[int64]string{}
 	r.bySub = map[string]int64{}
+	r.byName = map[string]string{}
 	for i := range c.Certs {
 		r.certs[c.Certs[i].ID] = &c.Certs[i]
 	}
@@ -683,6 +687,12 @@ func (r *submitRunner) sub(i int, op *submitOp) error {
 		}
 		return nil
 	}
+	if op.SameLeafAs != "" {
+		if k, ok := r.byName[op.SameLeafAs]; ok {
+			reqKey = k // the same entry (same deduplication key) as that request
+		}
+	}
+	r.byName[op.Name] = reqKey
 	if prev, dup := r.bySub[reqKey]; dup {
 		if idx != prev || grew != 0 {
 			g.fail(c, i, "submit-resubmission-new-leaf", fmt.Sprintf("%s: identical resubmission got index %d (first time %d), tree grew by %d", op.Name, idx, prev, grew))
@@ -758,13 +768,16 @@ func (r *submitRunner) sub(i int, op *submitOp) error {
 	} else if leaf.Precert || !bytes.Equal(leaf.Cert, r.certs[chain[0]].DER) {
 		g.fail(c, i, "submit-x509-entry-bytes", fmt.Sprintf("%s: stored x509_entry is not the submitted certificate", op.Name))
 	}
-	// (c) chain fingerprints and issuer objects
-	if len(leaf.FPs) != len(chain)-1 {
+	// (c) chain fingerprints and issuer objects. A leaf resubmitted through another valid chain is answered with the entry
+	// logged the first time (the chain fingerprints are not covered by the Merkle leaf): the stored fingerprints are
+	// those of the first chain; the certificates of THIS chain must be retrievable as issuers all the same.
+	altDup := op.SameLeafAs != "" && grew == 0
+	if len(leaf.FPs) != len(chain)-1 && !altDup {
 		g.fail(c, i, "submit-chain-fingerprints", fmt.Sprintf("%s: %d chain fingerprints for the verified chain %v", op.Name, len(leaf.FPs), chain))
 	}
 	for k, id := range chain[1:] {
 		fp := sha256.Sum256(r.certs[id].DER)
-		if k < len(leaf.FPs) && leaf.FPs[k] != fp {
+		if k < len(leaf.FPs) && leaf.FPs[k] != fp && !altDup {
 			g.fail(c, i, "submit-chain-fingerprints", fmt.Sprintf("%s: chain fingerprint %d is not sha256(%s)", op.Name, k, id))
 		}
 		obj, ok := r.log.store.get(fmt.Sprintf("issuer/%x", fp))
@@ -848,6 +861,9 @@ func (g *submitEngine) genCase(r *Rand, name string, nops int, wide bool) *submi
 	I1 := add(gen.ca("I1", I0, false, false, far), "I0")
 	J0 := add(gen.ca("J0", R1, false, false, far), "R1")
 	K0 := add(gen.ca("K0", RX, false, false, far), "RX")
+	// cross-signed intermediates: the same CAs (subject, key) certified by the other root
+	I0x := add(gen.caCross("I0x", I0, R1, far), "R1")
+	J0x := add(gen.caCross("J0x", J0, R0, far), "R0")
 	P0 := add(gen.ca("P0", I0, true, false, far), "I0") // precertificate signing certificate under an intermediate
 	P1 := add(gen.ca("P1", R1, true, false, far), "R1") // … directly under a root
 	RP := add(gen.ca("RP", nil, true, false, far), "")  // a trusted root that itself has the CT EKU
@@ -1196,6 +1212,24 @@ func (g *submitEngine) genCase(r *Rand, name string, nops int, wide bool) *submi
 			c.Ops = append(c.Ops, fop)
 		}
 		c.Ops = append(c.Ops, op)
+		if (why == "plain" || why == "eku-server+client") && (iss.ID == "I0" || iss.ID == "J0") && r.Chance(45) {
+			// the same leaf again, through the cross-signed certificate of its issuer and the other root: it must get the
+			// same answer, add no leaf, and the certificates of THIS chain must be retrievable as issuers too
+			alt, altRoot := I0x, R1
+			if iss.ID == "J0" {
+				alt, altRoot = J0x, R0
+			}
+			af := *f
+			af.Chain = []string{leaf.ID, alt.ID}
+			ad := [][]byte{leaf.DER, alt.DER}
+			af.Anchor = altRoot.ID
+			af.AnchorSubmitted = r.Chance(50)
+			if af.AnchorSubmitted {
+				af.Chain = append(af.Chain, altRoot.ID)
+				ad = append(ad, altRoot.DER)
+			}
+			c.Ops = append(c.Ops, submitOp{Op: "sub", Name: id + "x", Endpoint: endpoint, Method: method, Body: mkBody(ad), Facts: &af, Why: "alt-chain", SameLeafAs: id})
+		}
 		if why == "plain" || why == "eku-server+client" {
 			accepted = append(accepted, op)
 		}
